@@ -40,6 +40,14 @@ P = {
          "Gt elements g^k built five different ways; every ordered pair for * (against the product in F_q[w]/(w^12+2) on the decoded bytes and against g^(k+k')), commutativity, == iff encodings equal iff exponents equal, unit/inverse/g^0/g^1/order on every element, exponent laws, EVERY exponent below the bound, every 32-byte limb < q.",
          "Enumerated alphabet only.",
          "DESIGN.md 5 (C11)"),
+ "C16": (True, BFS + "; register machines (A, B : G ; s : Fr) over G1 and G2, then the full product of reached values through the pairing entry points",
+         "Every operation sequence up to the depth bound over 29 operations (add, sub, neg, scalar multiplication on either side, normalize, affine and encode/decode round trips, swap, resets, scalar updates) on the real code; states de-duplicated on their exact concrete content plus the tracked discrete logs; in every state the denoted points, is_zero, == in both orders, all three encodings and the scalar register are exactly those predicted from the discrete logs; every reached G1 value x every reached G2 value x 3 entry points gives g^(dd').",
+         "Bounded depth; scalar alphabet {0,1,2,r-1} and what the machine derives from it. Trusted: rustc, num-bigint, reference model.",
+         "DESIGN.md 5 (C16)"),
+ "C17": (True, GRID + "; FQ4^2, FQ12^2 through the cfg-guarded hook module, every supported Frobenius code, every addition-chain exponent, every small exponent, both final exponentiations, both Miller loops",
+         "Internal tower types driven through an add-only hook module: mul, sparse mul (within precondition), squared, inverse, Frobenius, pow, final_exponentiation and final_exp on boundary / sparse / subfield / unitary / cyclotomic / generic elements against flat polynomial arithmetic in F_q[w]/(w^12+2) with Frobenius and final exponentiation by generic powering; lazy-reduction carry classes u4 in {0,1,2} all required non-empty; the 4 Miller-loop x final-exponentiation combinations equal the reference pairing.",
+         "Needs the hook module (cfg john_yu_sm9_core_verif). Enumerated alphabet only.",
+         "DESIGN.md 5 (C17), 7"),
  "C04": (True, GRID + "; all ordered pairs of concrete point values (discrete log x Jacobian representative), all triples of a small set",
          "Every ordered pair over (D x {Aff, LibMul, LibSub, Scaled(2), Scaled(-1), Scaled(generic), ScaledX1, ScaledY1}) + 8 identity representatives for A+B, B+A, A-B, (A-B)+B, unary laws on every value, boundary field values pushed through the adder as Jacobian scalings, all triples of a small set; abstraction (x/z^2, y/z^3) compared with textbook affine chord-and-tangent on reference points; adder arm x relation histogram with every class required.",
          "Enumerated alphabet only. Trusted: rustc, num-bigint, reference model.",
@@ -113,6 +121,6 @@ def main():
     json.dump(m, open(os.path.join(ROOT, "MANIFEST.json"), "w"), indent=1)
     print("MANIFEST.json:", len(checks), "claimed,", len(na), "not applicable")
 
-HOOK_COMMITS = []
+HOOK_COMMITS = ["c27d000"]
 if __name__ == "__main__":
     main()
